@@ -276,7 +276,6 @@ func ruleEFilterGuardsRHS(p *Program, r *Reporter) {
 	}
 }
 
-var floatArithHelpers = map[string]bool{"add": true, "subtract": true, "multiply": true, "divide": true, "integerDivide": true, "modulo": true}
 
 func ruleEFloatArithSites(p *Program, r *Reporter) {
 	for _, fn := range p.ReachFuncs(p.Eval) {
@@ -304,27 +303,40 @@ func ruleEFloatArithSites(p *Program, r *Reporter) {
 				}
 				n++
 				key := fmt.Sprintf("%s float-arith#%d", name, n)
+				pair, single := true, true
+				for _, o := range operands {
+					if !floatOperand(o, 0) && !floatOperand(o, 1) {
+						pair = false
+					}
+					if !coercedFloat(o) {
+						single = false
+					}
+				}
+				_, unary := in.(*ssa.UnOp)
 				switch {
-				case floatArithHelpers[fn.Name()] && fn.Parent() == nil:
-					good := true
-					for _, o := range operands {
-						if !floatOperand(o, 0) && !floatOperand(o, 1) {
-							good = false
-						}
-					}
-					if good {
-						r.OK(in.Pos(), key, "operator fast path on the pair returned by toFloatPair")
-					} else {
-						r.Bad(instrPos(in), key, "float arithmetic on something other than the toFloatPair operands")
-					}
-				case fn.Name() == "evaluate":
-					r.OK(in.Pos(), key, "unary minus on a float operand")
+				case pair && !unary:
+					r.OK(in.Pos(), key, "operator fast path on the pair returned by the float pair coercion")
+				case unary && single:
+					r.OK(in.Pos(), key, "unary minus on the operand returned by the float coercion")
 				default:
-					r.Bad(instrPos(in), key, "binary floating-point arithmetic outside the arithmetic operators: aggregates and other helpers must compute on decimals (float accumulation is order dependent and drops or rounds values of other kinds)")
+					r.Bad(instrPos(in), key, "binary floating-point arithmetic on something other than the operands the float coercion returned: aggregates and other helpers must compute on decimals (float accumulation is order dependent and drops or rounds values of other kinds)")
 				}
 			}
 		}
 	}
+}
+
+// coercedFloat: v is result #0 of the float coercion func(any) (float64, bool).
+func coercedFloat(v ssa.Value) bool {
+	ex, ok := v.(*ssa.Extract)
+	if !ok || ex.Index != 0 {
+		return false
+	}
+	c, ok := ex.Tuple.(*ssa.Call)
+	if !ok {
+		return false
+	}
+	return isRole(calleeOf(&c.Call), "toFloat")
 }
 
 func ruleEByteToString(p *Program, r *Reporter) {
